@@ -46,6 +46,12 @@ class Context(object):
         self.scratch = tempfile.mkdtemp(prefix="verif-%s-" % pid.lower())
         self.dll_path = os.path.join(self.scratch, "dll")
         os.makedirs(self.dll_path)
+        # everything the code under test (or a killed builder) leaves in the temporary directory goes
+        # away with the scratch directory
+        tmp = os.path.join(self.scratch, "tmp")
+        os.makedirs(tmp)
+        os.environ["TMPDIR"] = tmp
+        tempfile.tempdir = tmp
         # must happen before sasmodels.kerneldll is imported anywhere in this process
         if "sasmodels.kerneldll" in sys.modules:
             raise HarnessError("sasmodels.kerneldll imported before the private SAS_DLL_PATH was set")
